@@ -15,10 +15,11 @@ CONSTANTS
   VerifierEditKinds = {"sel", "wire", "pirow", "pimove", "rows", "same", "label"}
   ProofEditKinds = {"mutate"}
   SpliceSets <- NoSplices
+  SpliceProgs = {}
   ViolationKinds = {}
   ViolationPick <- NoPick
   MaxEdits = 1
   Emit = TRUE
-VIEW view
+VIEW viewAll
 INVARIANTS Completeness BindsStatement BindsDescription TamperRejected FamilySatisfied Typed EmitScenario
 CHECK_DEADLOCK FALSE
